@@ -43,6 +43,7 @@ def shards(tier, seed):
             out.append({"name": f"sample-{i}", "kind": "sample", "stratum": i, "count": 12000, "lo": 200001})
         out.append({"name": "huge-0", "kind": "huge", "count": 6000})
         out.append({"name": "ts-0", "kind": "ts", "count": 3000})
+        out.append({"name": "tshuge-0", "kind": "ts", "count": 600})
         out.append({"name": "digits-0", "kind": "digits", "count": 1500})
     else:
         step = 125000
@@ -53,6 +54,7 @@ def shards(tier, seed):
         for i in range(4):
             out.append({"name": f"huge-{i}", "kind": "huge", "count": 40000})
             out.append({"name": f"ts-{i}", "kind": "ts", "count": 20000})
+            out.append({"name": f"tshuge-{i}", "kind": "ts", "count": 3000})
             out.append({"name": f"digits-{i}", "kind": "digits", "count": 10000})
     return out
 
@@ -125,14 +127,14 @@ def judge_tempos(rec, ns, name):
         rec.sample({"B": ns[:4], "decoded": [b for _, b in got[:4]]})
 
 
-def ts_case(rng, count):
+def ts_case(rng, count, huge=False):
     """TS lines (with and without exponent) and A lines at increasing ticks; fast tempo; many-digit ticks."""
     res = 960
     t = 0
     timesigs, anchors = [], []
     for i in range(count):
-        u = i % 65 if i < 200 else rng.choice([rng.randint(0, 64), rng.randint(0, 10**9), 10**9, 4, 0, rng.randint(10, 99), rng.randint(100, 9999),
-                                                   rng.randint(10**20, 10**40)])
+        u = i % 65 if i < 200 else rng.choice([rng.randint(0, 64), rng.randint(0, 10**9), 10**9, 4, 0, rng.randint(10, 99), rng.randint(100, 9999)]
+                                                  + ([rng.randint(10**20, 10**40)] if huge else []))
         e = [None] + list(range(17))
         ex = e[i % 18] if i < 400 else rng.choice(e)
         timesigs.append([t, u, ex])
@@ -229,7 +231,7 @@ def run_shard(shard, rec, tier, seed):
     elif k == "ts":
         # three charts one after the other: many anchors, other anchors, no anchors (each chart's events are its own lines')
         for part, cnt in enumerate((shard["count"], shard["count"] // 3, 60)):
-            truth = ts_case(rng, cnt)
+            truth = ts_case(rng, cnt, huge=shard["name"].startswith("tshuge"))
             if part == 2:
                 truth["anchors"] = []
                 rec.cls("chart_without_anchors_after_chart_with_anchors")
